@@ -115,3 +115,50 @@ def write_manifest(root):
 # properties whose check is not finished are listed under not_applicable with the reason
 PROPS["C03"]["unclaimed"] = "check under construction (SSA stratum being built)"
 PROPS["C18"]["unclaimed"] = "check under construction (SSA stratum and race harness being built)"
+
+
+PROOF_TEXT = ("Lean 4 theorems (all inputs, no bounds) about the executable model, whose field/scalar kernels are regenerated from "
+              "/repo on every run and whose hand-written part is tied to the real code by the limb-exact executed correspondence; "
+              "a broken proof or correspondence triggers a search for a failing input with the big-integer oracle. ")
+
+
+def _proof(pid, mods, what, technique, partial=""):
+    PROPS[pid]["modules"] = mods
+    PROPS[pid]["level"] = "proof"
+    PROPS[pid]["text"] = PROOF_TEXT + what + ((" NOT PROVED (covered by correspondence/oracle only): " + partial) if partial else "")
+    PROPS[pid]["technique"] = technique
+
+
+_proof("C02", ["EdVerif.Props.C02"], "Proved: Add/Subtract/Negate/MultByCofactor map valid points (any representation satisfying the limb invariant) to valid points "
+       "representing P+Q, P-Q, -P, 8P in the Edwards group over ZMod p (group law and completeness proved in Spec/).",
+       "Lean 4 refinement proof to an Edwards AddCommGroup over ZMod p + correspondence")
+_proof("C04", ["EdVerif.Props.C04"], "Proved: SetBytes accepts x iff |x| = 32 and (LE x mod 2^255 mod p) is the y of a curve point; then the point is valid, has that y, "
+       "and x-parity = bit 255 (or x = 0).", "Lean 4 iff-characterisation of the accept set + correspondence")
+_proof("C05", ["EdVerif.Props.C05"], "Proved: Bytes = encode(toEd P) for every valid representation; encode injective; round trip; re-encoding of accepted inputs canonical.",
+       "Lean 4 proof (bytes = encode ∘ toEd, injectivity) + correspondence")
+_proof("C06", ["EdVerif.Props.C06"], "Proved: Equal P Q = 1 iff toEd P = toEd Q, else 0, for all valid representations.", "Lean 4 proof by cross-multiplication with Z ≠ 0 + correspondence")
+_proof("C09", ["EdVerif.Props.C09"], "Proved on the regenerated wrap-around kernels: every field operation preserves the limb invariant (≤ 2^52-38) and computes the right value in ZMod p; "
+       "Invert/Pow22523 chains; the source comment's bound < 2^52 is shown insufficient.",
+       "Lean 4 proof on kernels regenerated from Go source (omega/ring over uint64 wrap-around model) + correspondence",
+       partial="closure over arbitrary API histories is the API-machine induction (Props/C12) when present")
+_proof("C10", ["EdVerif.Props.C10"], "Proved: Bytes = 32 LE bytes of the reduced value; SetBytes/SetWideBytes values; Equal/IsNegative functions of the value; Select/Swap exact for cond in {0,1}.",
+       "Lean 4 proof on regenerated kernels + correspondence")
+_proof("C13", ["EdVerif.Props.C13"], "Proved: SetExtendedCoordinates accepts iff Z != 0, curve equation and XY = ZT hold in ZMod p; the result is the input quadruple and represents (X/Z, Y/Z); export/import round trip.",
+       "Lean 4 iff-characterisation + correspondence")
+_proof("C16", ["EdVerif.Props.C16"], "Proved: the four-way SQRT_RATIO_M1 contract over ZMod p with non-negative = even.", "Lean 4 proof (Euler criterion, p = 5 mod 8) + correspondence")
+_proof("C17", ["EdVerif.Props.C17"], "Proved (C17_partial): BytesMontgomery = 32 LE bytes of (1+y)/(1-y) with 0^-1 = 0, representation independent, equal for P and -P, zeros for the identity.",
+       "Lean 4 proof of the birational map + correspondence against an RFC 7748 ladder",
+       partial="'equals the X25519 public key of k for P = [clamp k]B' (needs the Montgomery ladder formalised); checked against a Python RFC 7748 ladder on generated keys")
+PROPS["C11"]["modules"] = ["EdVerif.Props.C11"]
+PROPS["C11"]["text"] = ("Proved each run on the regenerated kernels: the load/store order of every straight-line kernel is alias-insensitive (Swap by an explicit lemma). "
+                        "All exported operations are executed under every partition of {receiver, arguments} into aliased groups and compared with the alias-free Lean model "
+                        "and the oracle; non-receiver arguments, byte slices and slice elements are snapshotted before/after. " + CORR)
+PROPS["C11"]["technique"] = "Lean 4 checked load/store-order facts on regenerated kernels + exhaustive-over-alias-partitions correspondence"
+_proof("C20", ["EdVerif.Props.C20"], "Proved each run on the regenerated instruction lists: the amd64 assembly feMul/feSquare and the arm64 carryPropagate, executed by an opcode semantics written in Lean, "
+       "give exactly the limbs of feMulGeneric/feSquareGeneric/carryPropagateGeneric for ALL limb values and every aliasing pattern; build-constraint facts: exactly one definition of each "
+       "configuration-dependent symbol is selected and those are the only ones. Plus same-process asm-vs-portable comparison and default-vs-purego transcript comparison.",
+       "Lean 4 symbolic execution of regenerated assembly against regenerated Go kernels + cross-build correspondence")
+PROPS["C20"]["parts"] = ["c20_crossbuild"]
+PROPS["C20"]["needs_gen"] = ["kernels", "asm", "facts"]
+PROPS["C20"]["trusted_extra"] = ["opcode semantics of the 9 amd64 / 8 arm64 opcodes used (EdVerif/Asm/Sem.lean) and the assembly tokenizer tools/go2lean/asm.go; "
+                                 "the arm64 routine cannot be executed in this sandbox (model + theorem only)"]
